@@ -1202,9 +1202,24 @@ def m_iter(I, args, kwargs):
     raise Unsupported("iter() of this value")
 
 
+_HASH_BYTES = z3.Function("hash_of_bytes", S.SeqI, S.IntS)
+
+
+def m_hash(I, args, kwargs):
+    """hash(b) of an octet string: some fixed function of its content (nothing else is assumed about it)"""
+    v = args[0]
+    if not _itp().has_sym([v]):
+        return hash(v)
+    M = _m()
+    if M.is_bytes_like(v):
+        return SInt(_HASH_BYTES(M.as_seq(I, v)))
+    raise Unsupported("hash() of this symbolic value")
+
+
 BUILTIN_MODELS = {
     _time.time: m_time,
     iter: m_iter,
+    hash: m_hash,
     str: m_str,
     struct.pack: m_struct_pack,
     struct.unpack: m_struct_unpack,
